@@ -666,18 +666,24 @@ func (g *Gen) oblige(kind, name, label string, props []string, reach, cond, src 
 }
 
 // Script renders the SMT-LIB script of an obligation.
-func (o *Oblig) Script(models bool) string {
+func (o *Oblig) Script(models bool) string { return o.script(models, false) }
+
+// CandidateScript: the negated obligation WITHOUT the engine's quantified heap axioms — a model of it is only a candidate
+// counterexample (fewer assumptions), to be confirmed by replay on the real code.
+func (o *Oblig) CandidateScript() string { return o.script(false, true) }
+
+func (o *Oblig) script(models bool, dropEngineQuant bool) string {
 	g := o.Gen
 	var b strings.Builder
 	b.WriteString("(set-option :produce-models true)\n(set-logic ALL)\n")
-	if o.Expect == "sat" {
+	if o.Expect == "sat" || dropEngineQuant {
 		b.WriteString(strings.Replace(prelude, preludeFaAxiom, "", 1))
 	} else {
 		b.WriteString(prelude)
 	}
 	b.WriteString(g.sorts.Decls())
 	for _, c := range g.cmds[:o.NCmds] {
-		if o.Expect == "sat" && strings.HasPrefix(c, engineQuantTag) {
+		if (o.Expect == "sat" || dropEngineQuant) && strings.HasPrefix(c, engineQuantTag) {
 			continue
 		}
 		b.WriteString(c)
